@@ -435,6 +435,47 @@ def app_cases(rng, tier):
             tree = t + ";"
         cases.append(dict(kind="prog", seqs=seqs, tree=tree, must_complete=tree is not None,
                           hlimit=[None, 0, SMALL_LIMIT][_k % 3], block="progressive_align"))
+    # guide-tree SHAPES and child ORDERS: every rooted binary topology with ordered children on 3 leaves, samples on 4-5 leaves;
+    # members carry insertions at the start / in the middle / at the END
+    def ordered_trees(leaves):
+        if len(leaves) == 1:
+            return [leaves[0]]
+        out = []
+        for mask in range(1, 2 ** len(leaves) - 1):
+            left = [x for i, x in enumerate(leaves) if mask >> i & 1]
+            right = [x for i, x in enumerate(leaves) if not mask >> i & 1]
+            for lt in ordered_trees(left):
+                for rt in ordered_trees(right):
+                    out.append((lt, rt))
+        return out
+
+    def newick(t, depth=0):
+        if isinstance(t, str):
+            return f"{t}:{0.1 + 0.02 * depth:.2f}"
+        inner = f"({newick(t[0], depth + 1)},{newick(t[1], depth + 1)})"
+        return inner + (f":{0.05:.2f}" if depth else ";")
+
+    shapes = {n: ordered_trees(list("ABCDE"[:n])) for n in (3, 4, 5)}
+    plan = [(3, t) for t in shapes[3]]
+    plan += [(4, rng.choice(shapes[4])) for _ in range(14 if tier == "quick" else 240)]
+    plan += [(5, rng.choice(shapes[5])) for _ in range(8 if tier == "quick" else 240)]
+    if tier != "quick":
+        plan += [(3, t) for t in shapes[3]] * 5
+    for _k, (n, t) in enumerate(plan):
+        base = rand_seq(rng, 7, 11)
+        seqs = {}
+        for i, nm in enumerate("ABCDE"[:n]):
+            sq = base
+            if rng.random() < 0.4:
+                mid = rng.randint(2, len(base) - 2)
+                sq = sq[:mid] + rand_seq(rng, 2, 4) + sq[mid:]
+            if rng.random() < 0.35:
+                sq = rand_seq(rng, 2, 4) + sq
+            if rng.random() < 0.45:
+                sq = sq + rand_seq(rng, 2, 5)
+            seqs[nm] = sq
+        cases.append(dict(kind="prog", seqs=seqs, tree=newick(t), must_complete=True, hlimit=[None, None, 0][_k % 3],
+                          block="progressive_shapes"))
     # constructed nested-indel families on a given guide tree: later joins open gaps at / next to earlier gaps
     nn = 16 if tier == "quick" else 160
     for _k in range(nn):
@@ -453,6 +494,21 @@ def app_cases(rng, tier):
             tree = "(((A:0.1,B:0.1):0.05,(C:0.1,D:0.1):0.05):0.05,E:0.2);"
         cases.append(dict(kind="prog", seqs=seqs, tree=tree, must_complete=True, hlimit=[None, 0][_k % 2 if _k % 8 >= 4 else 0],
                           block="progressive_nested"))
+    # histories on ONE PairHMM object (built as _align_pairwise builds it): the same object queried with different
+    # option sets, in both orders; every answer must equal the answer of a fresh object (and the oracle)
+    QS = [dict(how="path", local=False), dict(how="path", local=True), dict(how="score_and_alignment", local=False),
+          dict(how="score_and_alignment", local=True), dict(how="path", local=False, ucf=False), dict(how="path", local=True, ucf=False),
+          dict(how="forward", local=False), dict(how="forward", local=False, ucf=False)]
+    for _k in range(40 if tier == "quick" else 400):
+        a = rand_seq(rng, 2, 10)
+        b = mutate(rng, a) if rng.random() < 0.6 else rand_seq(rng, 2, 10)
+        if _k % 4 == 0:
+            qs = [QS[0], QS[1]]
+        elif _k % 4 == 1:
+            qs = [QS[1], QS[0]]
+        else:
+            qs = [rng.choice(QS) for _ in range(rng.randint(2, 5))]
+        cases.append(dict(kind="hist", a=a, b=b, S=rand_S(rng), d=rng.randint(1, 12), e=rng.randint(1, 4), queries=qs, block="pairhmm_history"))
     return cases
 
 
@@ -671,6 +727,35 @@ def check_star(rep, c, ir, stats):
             return
 
 
+def check_hist(rep, c, ir, stats):
+    if "exc" in ir:
+        rep.violation("pairhmm-history:raised", dict(case=c, observed_impl=ir, broken="a query on a shared PairHMM object raised / hung"))
+        stats["viol"] += 1
+        return
+    T, em = real_tables(c, ir["n"])
+    extra = cond_tol(c["d"], c["e"])
+    for qi, (q, sh, fr) in enumerate(zip(c["queries"], ir["shared"], ir["fresh"])):
+        kind = q["how"] + (":local" if q["local"] else ":global") + ("" if q.get("ucf") is None else ":use_cost_function=False")
+        if sh["rows"] != fr["rows"] or not close(sh["score"], fr["score"]):
+            rep.violation(f"pairhmm-history:{kind}:differs-from-fresh-object",
+                          dict(case=c, query_index=qi, observed_impl=dict(shared=sh, fresh=fr),
+                               broken="the answer of a PairHMM object depends on what it was asked before"))
+            stats["viol"] += 1
+            return
+        if q["how"] != "forward" and q.get("ucf") is None:
+            why = valid_rows(sh["rows"], c["a"], c["b"], q["local"])
+            r1, r2 = sh["rows"]
+            res = None if why else path_score(rows_to_path(r1, r2), r1.replace("-", ""), r2.replace("-", ""), T, em, local=q["local"])
+            opt = dp_local(c["a"], c["b"], T, em) if q["local"] else dp_global(c["a"], c["b"], T, em)
+            if why or not close(res, sh["score"], extra) or not close(opt, sh["score"], extra):
+                rep.violation(f"pairhmm-history:{kind}:not-the-optimal-alignment",
+                              dict(case=c, query_index=qi, observed_impl=sh, expected_by_spec=dict(rows_problem=why, optimum=opt, score_of_rows=res),
+                                   broken="rows invalid / reported score != path score / not optimal, on a shared PairHMM object"))
+                stats["viol"] += 1
+                return
+    stats["hist_queries"] = stats.get("hist_queries", 0) + len(c["queries"])
+
+
 def check_app(rep, c, ir, stats):
     op = ("align_to_ref" if c["kind"] == "ref" else "progressive_align") + (":hirschberg" if case_limit(c) is not None else "")
     if "exc" in ir:
@@ -855,6 +940,8 @@ def run(tier: str, seed: int) -> int:
             check_pair(rep, c, ir, stats)
         elif c["kind"] == "star":
             check_star(rep, c, ir, stats)
+        elif c["kind"] == "hist":
+            check_hist(rep, c, ir, stats)
         else:
             check_app(rep, c, ir, stats)
     nprog = sum(1 for c in cases if c["kind"] == "prog")
@@ -929,6 +1016,9 @@ def run(tier: str, seed: int) -> int:
         elif c["kind"] == "star":
             if len(c["pw"]) >= 2 and any("-" in r for r, _ in c["pw"]):
                 nontrivial.add(json.dumps(c, sort_keys=True))
+        elif c["kind"] == "hist":
+            if len({(q["local"], q.get("ucf"), q["how"]) for q in c["queries"]}) >= 2:
+                nontrivial.add(json.dumps(c, sort_keys=True))
         else:
             if "rows" in ir and any("-" in r for r in ir["rows"].values()):
                 nontrivial.add(json.dumps(c, sort_keys=True))
@@ -939,7 +1029,8 @@ def run(tier: str, seed: int) -> int:
                 "classic_align_pairwise" if c.get("api") == "classic" else "global_pairwise/local_pairwise"
             mode = f"{api}:{'local' if c['local'] else 'global'}"
         else:
-            mode = {"star": "pairwise_to_multiple", "ref": "align_to_ref", "prog": "progressive_align"}[c["kind"]]
+            mode = {"star": "pairwise_to_multiple", "ref": "align_to_ref", "prog": "progressive_align",
+                    "hist": "PairHMM object history"}[c["kind"]]
         lim = case_limit(c)
         thr = "default" if lim is None else "0" if lim == 0 else f"small({lim})"
         return mode, thr, c.get("optname") or "none"
@@ -981,6 +1072,7 @@ def run(tier: str, seed: int) -> int:
                     "is excluded on purpose (internal combination used for posteriors, scores a different model); pairwise_to_multiple "
                     "takes no threshold (no DP)",
         threshold_rows_identical_to_full_dp=stats.get("threshold_same_rows", 0),
+        pairhmm_history_queries=stats.get("hist_queries", 0),
         hirschberg_model_runs=stats.get("hirsch_model", 0), hirschberg_model_rows_identical=stats.get("hirsch_same_rows", 0),
         hirschberg_model_rows_cooptimal=stats.get("hirsch_cooptimal_rows", 0),
         hirschberg_middle_rows_compared=stats.get("middle_rows", 0), hirschberg_middle_entries_compared=stats.get("middle_entries", 0),
@@ -1015,6 +1107,8 @@ def replay(path: str) -> int:
         check_pair(rep, c, ir, stats)
     elif c["kind"] == "star":
         check_star(rep, c, ir, stats)
+    elif c["kind"] == "hist":
+        check_hist(rep, c, ir, stats)
     else:
         check_app(rep, c, ir, stats)
     for key, rd in hits:
